@@ -570,8 +570,17 @@ Fixpoint comb (j v : N) (f : bool) (l : list cres) : N * bool :=
                   comb (j + 1)%N ((v + (2 * j + 3) * dv) mod 1000003)%N (f || N.odd r) tl
   | _ :: tl => comb (j + 1)%N v true tl
   end.
-Definition acomp (i : nat) (k : key) (l : list cres) : N :=
-  let '(v, f) := comb 0%N (N.of_nat i mod 1000003)%N false l in (2 * v + (if f then 1 else 0))%N.
+(* a query of the harness can also fail on its own: fl gives (key, (r, m)): the Execute of that key returns a
+   fatal error of its own, together with its value, iff input mod m = r (an ordinary error, no panic); the
+   executor treats the pair Value/Fatal as one opaque result, which is the one number here *)
+Definition own_fail (fl : list (key * (nat * nat))) (i : nat) (k : key) : bool :=
+  match find (fun e => Nat.eqb (fst e) k) fl with
+  | Some (_, (r, m)) => Nat.ltb 0 m && Nat.eqb (i mod m) r
+  | None => false
+  end.
+Definition acompf (fl : list (key * (nat * nat))) (i : nat) (k : key) (l : list cres) : N :=
+  let '(v, f) := comb 0%N (N.of_nat i mod 1000003)%N (own_fail fl i k) l in (2 * v + (if f then 1 else 0))%N.
+Definition acomp (i : nat) (k : key) (l : list cres) : N := acompf [] i k l.
 
 Inductive cop :=
 | CRun (ks : list key)
@@ -585,12 +594,12 @@ Inductive cop :=
 | CEdit (ks : list key) (vs : list nat) (keys_after : list key).
 
 Record icase := {
-  c_n : nat; c_deps : list (list (list key)); c_panic : list (key * nat); c_fix : bool;
+  c_n : nat; c_deps : list (list (list key)); c_panic : list (key * nat); c_fail : list (key * (nat * nat)); c_fix : bool;
   c_par : nat; c_inputs : list nat; c_ops : list cop
 }.
 
 Definition world_of (c : icase) : world :=
-  {| wn := c_n c; wdeps := fun _ k => nth k (c_deps c) []; wcomp := acomp;
+  {| wn := c_n c; wdeps := fun _ k => nth k (c_deps c) []; wcomp := acompf (c_fail c);
      wpanic := fun k => option_map snd (find (fun e => Nat.eqb (fst e) k) (c_panic c)); wfix := c_fix c |}.
 
 Definition list_nat_eqb (a b : list nat) : bool := if list_eq_dec Nat.eq_dec a b then true else false.
